@@ -104,7 +104,8 @@ func sites(src []byte, name string) []site {
 		case token.INC:
 			add("incdec", "++", "--")
 		case token.INT:
-			if n, err := strconv.ParseInt(lit, 0, 64); err == nil && n >= 0 && n <= 64 && !strings.HasPrefix(lit, "0x") {
+			// (constants in package-level tables are left alone: their entries are mostly "non-zero" flags)
+			if n, err := strconv.ParseInt(lit, 0, 64); err == nil && n >= 0 && n <= 64 && !strings.HasPrefix(lit, "0x") && funcDepth != -1 {
 				add("const", lit, strconv.FormatInt(n+1, 10))
 			}
 		}
